@@ -306,9 +306,21 @@ def parse_proxy_headers(
     if client_addr:
         if ":" in client_addr and client_addr[-1] != "]":
             addr, port = client_addr.rsplit(":", 1)
+            if not addr.strip():
+                raise MalformedProxyHeader(
+                    "Forwarded" if forwarded else "X-Forwarded-For",
+                    "empty client address",
+                    client_addr,
+                )
             environ["REMOTE_ADDR"] = strip_brackets(addr.strip())
             environ["REMOTE_PORT"] = port.strip()
         else:
+            if not client_addr.strip():
+                raise MalformedProxyHeader(
+                    "Forwarded" if forwarded else "X-Forwarded-For",
+                    "empty client address",
+                    client_addr,
+                )
             environ["REMOTE_ADDR"] = strip_brackets(client_addr.strip())
         environ["REMOTE_HOST"] = environ["REMOTE_ADDR"]
 
